@@ -92,16 +92,22 @@ func Plain(acc Account, res *Result) refsmtp.AuthHandler {
 
 // Login implements the LOGIN mechanism (draft-murchison-sasl-login).
 func Login(acc Account, res *Result) refsmtp.AuthHandler {
+	return LoginPrompts(acc, res, "Username:", "Password:")
+}
+
+// LoginPrompts is Login with the server's own wording of the two prompts: the draft fixes the ORDER
+// of the two answers, not the text ("User Name", "Username:" twice, localised prompts all occur).
+func LoginPrompts(acc Account, res *Result, userPrompt, passPrompt string) refsmtp.AuthHandler {
 	return func(mech string, initial []byte, io *refsmtp.AuthIO, _ *tls.ConnectionState) string {
 		user := initial
 		var err error
 		if user == nil {
-			if user, err = io.Challenge([]byte("Username:")); err != nil {
+			if user, err = io.Challenge([]byte(userPrompt)); err != nil {
 				res.set("LOGIN", false, false, "aborted: "+err.Error())
 				return "501 5.5.2 cancelled"
 			}
 		}
-		pass, err := io.Challenge([]byte("Password:"))
+		pass, err := io.Challenge([]byte(passPrompt))
 		if err != nil {
 			res.set("LOGIN", false, false, "aborted: "+err.Error())
 			return "501 5.5.2 cancelled"
